@@ -118,6 +118,9 @@ func (r *Run) invokeIntrinsic(recv Iface, m *types.Func, args []Value) (Value, b
 	if !ok {
 		return nil, false
 	}
+	if pv := r.asPtr(recv.V); pv.Obj != nil && pv.Obj.Sym != nil {
+		return r.symInvoke(pv.Obj.Sym, m.Name(), args), true
+	}
 	ts := r.ts
 	switch m.Name() {
 	case "Kind":
